@@ -5,6 +5,7 @@ G2  defined before use: register operands are looked up in the set-bitmap and th
     SSA operands are compared with the running wire index
 G3  eval (and Evaluator::run) compare party count and per-party bit counts before indexing the inputs
 G4  sibling consistency: every comparison of a circuit field against the same bound uses the same comparator
+G5  no index position (or slice bound) into circuit-sized storage in eval is computed from the supplied inputs
 """
 from .. import mir, protocol
 from ..core import AnchorMissing, Finding, RuleResult
@@ -278,6 +279,36 @@ def rule_g1(ctx):
     return res
 
 
+def rule_g5(ctx):
+    """No index position in eval is computed from the supplied inputs: validation knows nothing about them."""
+    res = RuleResult("G5", "eval indexes circuit-sized storage only with circuit fields and bounded counters, never with a size taken from the inputs")
+    for ev in ("register_circuit::Circuit::eval", "circuit::Circuit::eval"):
+        ids = [ev] + sorted(ctx.cg.closures_of.get(ev, ()))
+        n = 0
+        for fid in ids:
+            body = ctx.body(fid)
+            inputs_args = [l for l in range(1, body.arg_count + 1) if "[std::vec::Vec<bool>]" in body.locals[l]["ty"] or "Vec<std::vec::Vec<bool>>" in body.locals[l]["ty"]]
+            if fid == ev and not inputs_args:
+                raise AnchorMissing("G5: %s has no inputs parameter" % ev)
+            for b, t in body.calls():
+                if t["func"].get("declared") not in INDEX_CALLS or len(t["args"]) != 2 or body.blocks[b]["cleanup"]:
+                    continue
+                n += 1
+                # the indexed collection: storage of the circuit's size (not the inputs themselves)
+                coll = body.deep_sources(t["args"][0], 2)
+                on_inputs = any(r in [("arg", a) for a in inputs_args] for (r, p) in coll)
+                if on_inputs:
+                    continue
+                key = body.deep_sources(t["args"][1], 4)
+                if any(r in [("arg", a) for a in inputs_args] for (r, p) in key):
+                    res.bad(Finding("G5", fid, "index into circuit-sized storage computed from the inputs",
+                                    "this position / range is derived from the supplied inputs (their lengths); validation relates the circuit's fields to each other, not to the inputs, "
+                                    "so nothing bounds it by the size of the indexed vector", t["sp"]))
+        if not any(x.fn in ids for x in res.findings):
+            res.ok({"evaluator": ev, "index_sites": n, "verdict": "no index position derives from the inputs argument"})
+    return res
+
+
 def rule_g2(ctx):
     res = RuleResult("G2", "defined before use: register operands looked up in the written-set before the destination is marked; SSA operands compared with the running index")
     va = "register_circuit::Circuit::validate"
@@ -468,4 +499,4 @@ def rule_g4(ctx):
 
 
 def run(ctx):
-    return ctx.run_rules([rule_g1, rule_g2, rule_g3, rule_g4])
+    return ctx.run_rules([rule_g1, rule_g2, rule_g3, rule_g4, rule_g5])
